@@ -3,9 +3,9 @@
     looks at an atom (leaf comparison, key cleaning, set-member hashing) do with them.
 
     The leaf function of the model is monadic ([leafR : res (list entry)]); [diff_atomF] is its projection
-    (Err |-> []).  Every statement about "nothing is reported" is proved twice: about the projection, and - under the
-    guard [leaf_ok] (no date / timedelta under truncate_datetime: C11-TRUNC-DATE raises even against itself) - about
-    [leafR] itself ([= Ok []], hence [atom_err = None]). *)
+    (Err |-> []).  Every statement about "nothing is reported" is proved twice: about the projection, and about
+    [leafR] itself ([= Ok []], hence [atom_err = None]) - without a guard since 1c8f0f8 (finding C11-TRUNC-DATE, fixed:
+    datetime_normalize leaves a date / timedelta alone, so such a leaf no longer raises against itself). *)
 From Coq Require Import List ZArith NArith Bool Arith Lia.
 Import ListNotations.
 From DD Require Import Base.PyStr Options.OptModel Options.OptDtModel Options.YValue Options.YModel Options.YProofsBase.
@@ -238,17 +238,6 @@ Proof. intros a H. destruct a; cbn in H; try discriminate; eexists; reflexivity.
 (* ---------------------------------------------------------------------- *)
 (* leaves                                                                   *)
 (* ---------------------------------------------------------------------- *)
-(* the one atom-level corner where a leaf raises even against itself: obj.replace(microsecond=...) on a date /
-   timedelta under truncate_datetime (C11-TRUNC-DATE) *)
-Definition leaf_ok (F : opts) (a : atom) : bool :=
-  match a with
-  | ADate _ _ _ | ATd _ => match o_trunc F with Some _ => false | None => true end
-  | _ => true
-  end.
-
-Lemma leaf_ok_atom_of_e : forall F v, leaf_ok F (atom_of_e v) = true.
-Proof. destruct v; reflexivity. Qed.
-
 Section Leaf.
 Variable udiff : pystr -> pystr -> pystr.
 Variable F : opts.
@@ -299,22 +288,20 @@ Lemma time_secs_not_nan : forall us, is_nan (time_secs us) = false.
 Proof. intros us. unfold time_secs. destruct (_ =? 0)%Z; reflexivity. Qed.
 
 (* the comparer of an atom against itself (not a nan: nan != nan) *)
-Lemma dispatch_refl : forall rtc x p1 p2, leaf_ok F x = true -> is_nan x = false -> dispatch udiff F rtc x x p1 p2 = Ok [].
+Lemma dispatch_refl : forall rtc x p1 p2, is_nan x = false -> dispatch udiff F rtc x x p1 p2 = Ok [].
 Proof.
-  intros rtc x p1 p2 Hok Hn.
+  intros rtc x p1 p2 Hn.
   destruct x as [| b | z | m e | s | s | u o | i | m e | y mo d | u | u | cl n o v]; cbn [dispatch]; try reflexivity;
     try (apply numD_refl; reflexivity); try discriminate.
   - unfold py_ne. rewrite py_eq_refl. reflexivity.
   - unfold strD. cbn [atom_ty str_like]. unfold diff_strF. rewrite pystr_eqb_refl, ty_eqb_refl. reflexivity.
   - unfold strD. cbn [atom_ty str_like]. unfold diff_strF. rewrite pystr_eqb_refl, ty_eqb_refl. reflexivity.
   - cbn [dtD]. unfold dt_changed. rewrite Z.eqb_refl. reflexivity.
-  - unfold timeD. cbn [leaf_ok] in Hok. destruct (o_trunc F); [discriminate|].
-    unfold py_ne. rewrite py_eq_refl. reflexivity.
+  - unfold timeD. destruct (o_trunc F); cbn [norm_any bind]; unfold py_ne; rewrite py_eq_refl; reflexivity.
   - unfold timeD. destruct (o_trunc F) as [t|].
     + cbn [norm_any bind]. unfold py_ne. rewrite py_eq_refl, time_secs_not_nan. reflexivity.
     + unfold py_ne. rewrite py_eq_refl. reflexivity.
-  - unfold timeD. cbn [leaf_ok] in Hok. destruct (o_trunc F); [discriminate|].
-    unfold py_ne. rewrite py_eq_refl. reflexivity.
+  - unfold timeD. destruct (o_trunc F); cbn [norm_any bind]; unfold py_ne; rewrite py_eq_refl; reflexivity.
 Qed.
 
 (* two atoms that are not both members of one Enum class are compared by leaf_core *)
@@ -364,9 +351,9 @@ Proof.
     rewrite Ua, Ub, Oa, Ob, Na. cbn [orb]. rewrite andb_false_r. reflexivity.
 Qed.
 
-Lemma leafR_refl : forall a p1 p2, leaf_ok F a = true -> leafR udiff F a a p1 p2 = Ok [].
+Lemma leafR_refl : forall a p1 p2, leafR udiff F a a p1 p2 = Ok [].
 Proof.
-  intros a p1 p2 Hok.
+  intros a p1 p2.
   destruct (is_enum a) eqn:Ee.
   { destruct a; try discriminate. unfold leafR. rewrite !pystr_eqb_refl. reflexivity. }
   rewrite leafR_core_l by exact Ee. unfold leaf_core.
@@ -378,21 +365,14 @@ Proof.
   rewrite andb_false_r. cbn [andb]. apply dispatch_refl; assumption.
 Qed.
 
-(* the projection: an atom against itself reports nothing (when it raises, C11-TRUNC-DATE, nothing is reported either) *)
+(* the projection: an atom against itself reports nothing *)
 Lemma diff_atomF_refl : forall a p1 p2, diff_atomF udiff F a a p1 p2 = [].
-Proof.
-  intros a p1 p2. unfold diff_atomF.
-  destruct (leaf_ok F a) eqn:Hok; [rewrite leafR_refl by exact Hok; reflexivity|].
-  destruct a; try discriminate; cbn [leaf_ok] in Hok; destruct (o_trunc F) eqn:Et; try discriminate;
-    cbn [leafR]; unfold leaf_core; cbn [same_obj atom_ty ty_eqb is_nan andb];
-    (destruct (excluded F _ || excluded F _); [reflexivity|]); rewrite andb_false_r;
-    cbn [dispatch]; unfold timeD, norm_any; rewrite Et; reflexivity.
-Qed.
+Proof. intros a p1 p2. unfold diff_atomF. rewrite leafR_refl. reflexivity. Qed.
 
 (* the leaf theorem, monadic form: related atoms are compared without a report and without an exception *)
-Theorem leafR_altL : forall a b p1 p2, altL F a b = true -> leaf_ok F a = true -> leafR udiff F a b p1 p2 = Ok [].
+Theorem leafR_altL : forall a b p1 p2, altL F a b = true -> leafR udiff F a b p1 p2 = Ok [].
 Proof.
-  intros a b p1 p2 H Hok. unfold altL in H.
+  intros a b p1 p2 H. unfold altL in H.
   apply orb_true_iff in H. destruct H as [H|H].
   2:{ (* an Enum member and its value *)
       unfold enum_rel in H.
@@ -410,7 +390,7 @@ Proof.
         all: destruct b; try discriminate; exists v; rewrite Heq; cbn [unwrap]; rewrite Hoe; reflexivity. }
       rewrite Ev.
       assert (is_nan (atom_of_e v) = false) as Hn by (destruct v; reflexivity).
-      rewrite Hn, andb_false_r. cbn [andb]. apply dispatch_refl; [apply leaf_ok_atom_of_e|exact Hn]. }
+      rewrite Hn, andb_false_r. cbn [andb]. apply dispatch_refl. exact Hn. }
   apply orb_true_iff in H. destruct H as [H|H].
   2:{ (* two nan objects under ignore_nan_inequality *)
       unfold nan_rel in H. apply andb_true_iff in H. destruct H as [H Hb]. apply andb_true_iff in H. destruct H as [Hn Ha].
@@ -427,7 +407,7 @@ Proof.
       cbn [dispatch dtD]. rewrite H. reflexivity. }
   apply orb_true_iff in H. destruct H as [H|H].
   - apply orb_true_iff in H. destruct H as [H|H].
-    + apply atom_eqb_eq in H. subst. apply leafR_refl. exact Hok.
+    + apply atom_eqb_eq in H. subst. apply leafR_refl.
     + (* strings *)
       pose proof H as H0. unfold str_rel in H0.
       apply andb_true_iff in H0. destruct H0 as [H0 _]. apply andb_true_iff in H0. destruct H0 as [H0 Ht].
@@ -461,34 +441,12 @@ Proof.
 Qed.
 
 (* ... hence no exception either *)
-Corollary atom_err_altL : forall a b, altL F a b = true -> leaf_ok F a = true -> atom_err udiff F a b = None.
-Proof. intros a b H Hok. unfold atom_err. rewrite leafR_altL by assumption. reflexivity. Qed.
+Corollary atom_err_altL : forall a b, altL F a b = true -> atom_err udiff F a b = None.
+Proof. intros a b H. unfold atom_err. rewrite leafR_altL by assumption. reflexivity. Qed.
 
-(* the leaf theorem about what is reported (no guard: when the leaf raises, nothing is reported) *)
+(* the leaf theorem about what is reported *)
 Theorem diff_atomF_altL : forall a b p1 p2, altL F a b = true -> diff_atomF udiff F a b p1 p2 = [].
-Proof.
-  intros a b p1 p2 H.
-  destruct (leaf_ok F a) eqn:Hok; [unfold diff_atomF; rewrite leafR_altL by assumption; reflexivity|].
-  (* a date / timedelta under truncate_datetime is related to itself only *)
-  assert (a = b) as E.
-  { assert (is_nan a = false /\ is_enum a = false /\ is_numeric a = false /\ str_like (atom_ty a) = false
-            /\ unwrap F a = a /\ (forall v, atom_eqb a (atom_of_e v) = false) /\ dt_rel F a b = false) as [K1 [K2 [K3 [K4 [K5 [K6 K7]]]]]].
-    { destruct a; try discriminate; repeat split; try reflexivity; destruct v; reflexivity. }
-    unfold altL in H.
-    apply orb_true_iff in H. destruct H as [H|H].
-    2:{ exfalso. unfold enum_rel in H. rewrite K2, K5 in H. cbn [orb] in H.
-        apply andb_true_iff in H. destruct H as [H Heq].
-        apply andb_true_iff in H. destruct H as [H Hen]. apply andb_true_iff in H. destruct H as [Hoe _].
-        destruct b; try discriminate. cbn [unwrap] in Heq. rewrite Hoe, K6 in Heq. discriminate. }
-    apply orb_true_iff in H. destruct H as [H|H].
-    2:{ exfalso. unfold nan_rel in H. rewrite K1, andb_false_r in H. discriminate. }
-    apply orb_true_iff in H. destruct H as [H|H]; [|congruence].
-    apply orb_true_iff in H. destruct H as [H|H].
-    2:{ exfalso. unfold num_ty_ok in H. rewrite K3 in H. discriminate. }
-    apply orb_true_iff in H. destruct H as [H|H]; [apply atom_eqb_eq; exact H|].
-    exfalso. unfold str_rel in H. rewrite K4 in H. discriminate. }
-  subst. apply diff_atomF_refl.
-Qed.
+Proof. intros a b p1 p2 H. unfold diff_atomF. rewrite leafR_altL by assumption. reflexivity. Qed.
 
 End Leaf.
 
